@@ -256,7 +256,7 @@ def run(ctx):
     if not bad and not proof_ok:
         ctx.violation("proof obligations of Properties_C07.v do not check", {"broken": "Properties_C07.v", "detail": proof}, found_input=False)
     cov = dict(proof)
-    cov["listing_tie"] = {k: listing.get(k) for k in ("counts", "first_difference", "translator_error", "callees_outside_table")}
+    cov["listing_tie"] = {k: listing.get(k) for k in ("counts", "first_difference", "translator_error", "callees_outside_table", "callees_not_inlined")}
     cov.update({"trusted_base": common.TRUSTED_BASE + ["tools/machine_ops.py (clang AST translator) and its table of functions per listing",
                                                         "g++ 12 sanitizer runtimes (ASan, UBSan); the C++ type annotations of the machine model are hand-transcribed",
                                                         "memory safety and termination of Eigen / lemon / boost / libstdc++ use are OBSERVED on the generated cases, not proved"],
